@@ -199,6 +199,14 @@ Theorem C02_stacked_jacobian_entry : forall rho lg (l1 l2 : list (Z * tree RD)) 
 Proof. exact stacked_jacobian_entry. Qed.
 Print Assumptions C02_stacked_jacobian_entry.
 
+(* the terminal-condition correction of the stacked-time Jacobian (fords/terminators.py): which column of the first-order
+   transition matrices is added into which column of the Jacobian *)
+Theorem C02_terminal_map_pairs : forall terminit spots i j,
+  In (i, j) (terminal_jacobian_map terminit spots) <->
+  exists t, nth_error terminit j = Some t /\ col_of (some_columns spots) t = Some i.
+Proof. exact terminal_map_pairs. Qed.
+Print Assumptions C02_terminal_map_pairs.
+
 (* a matrix of the unsolved system (A, B with its lagged columns, D, F, G, J): entry (i, c) is the diff of equation
    eids[i] seeded on the token of column c; with C02_equation_diff_plain/_log it is the partial derivative *)
 Theorem C02_system_matrix_entry : forall rho lg (l1 l2 : list (Z * tree RD)) m eids cols i c eid t tok k,
